@@ -131,6 +131,63 @@ func dayExamined(fn *ssa.Function) bool {
 	return false
 }
 
+// dayEstablished: on every returning path of a local-midnight constructor the returned instant's civil day has been
+// compared equal to the requested day (the day parameter, or the day of the same civil date built in UTC).
+func dayEstablished(p *Program, fn *ssa.Function) string {
+	w := NewWalker(p)
+	w.LoopFuel = 3
+	w.Inline = func(f *ssa.Function, d int) bool { return false }
+	args := make([]*Term, len(fn.Params))
+	dayParam := ""
+	for i, prm := range fn.Params {
+		args[i] = &Term{Op: "param", Name: prm.Name(), Typ: prm.Type()}
+	}
+	// the day argument: third argument of the time.Date(..., time.Local) call
+	for _, b := range fn.Blocks {
+		for _, in := range b.Instrs {
+			if c, ok := in.(*ssa.Call); ok {
+				if f := c.Call.StaticCallee(); f != nil && calleeName(f) == "time.Date" && isTimeLocal(c.Call.Args[7]) {
+					if prm, ok := c.Call.Args[2].(*ssa.Parameter); ok {
+						dayParam = prm.Name()
+					}
+				}
+			}
+		}
+	}
+	n := 0
+	for _, pa := range w.Walk(fn, args, nil) {
+		if pa.Outcome != "return" || len(pa.Results) == 0 {
+			continue
+		}
+		n++
+		res := stripConv(pa.Results[0]).String()
+		want := "(time.Time).Day(" + res + ")"
+		ok := false
+		for k, v := range pa.State.Rels {
+			if v != relEQ {
+				continue
+			}
+			ab := strings.SplitN(k, "\x00", 2)
+			for i := 0; i < 2; i++ {
+				if ab[i] != want {
+					continue
+				}
+				other := ab[1-i]
+				if other == dayParam || (strings.HasPrefix(other, "(time.Time).Day(time.Date(") && strings.HasSuffix(other, "time.UTC))")) {
+					ok = true
+				}
+			}
+		}
+		if !ok {
+			return "on the path [" + cut(pa.State.Describe(), 220) + "] the function returns " + cut(res, 80) + " without having established that its civil day is the requested one"
+		}
+	}
+	if n == 0 {
+		return "no returning path could be followed"
+	}
+	return ""
+}
+
 func RuleZone(r *Report, p *Program, c *Codec) {
 	r.Rule("Z1", "civil dates and times are built and parsed in the process-local zone; a UTC parse is tolerated only when its result is used solely through civil-field accessors", 10)
 	r.Rule("Z2", "encoders format the civil fields of the stored instant itself", 4)
@@ -171,8 +228,13 @@ func RuleZone(r *Report, p *Program, c *Codec) {
 						mi, okm := constInt(args[4])
 						s, oks := constInt(args[5])
 						if okh && okm && oks && h == 0 && mi == 0 && s == 0 {
-							r.Check(dayExamined(fn), "Z3", site, pos, "civil day re-checked",
+							okEx := dayExamined(fn)
+							r.Check(okEx, "Z3", site, pos, "civil day re-checked",
 								"builds local midnight of a civil date without checking the result's day: in zones whose DST change removes 00:00 (America/Santiago, America/Havana, Atlantic/Azores, America/Sao_Paulo ...) the value lands on the previous day")
+							if okEx {
+								d := dayEstablished(p, fn)
+								r.Check(d == "", "Z3", site+":established", pos, "every returned instant has its civil day established equal to the requested day", d)
+							}
 						}
 					case civilOnlyUse(call, 0):
 						r.OK("Z1", site, pos, "non-local instant used only for its civil fields", true)
